@@ -173,6 +173,13 @@ func (v *ScriptView) generateDatabaseScriptModify(tableDetails []TableDetails,
 
 	visitedAttributes := map[string]string{}
 	for _, tableDetail := range tableDetails {
+		// the type map of an application also holds tuples, enums and aliases: only tables matter
+		if tableDetail.table.GetRelation() == nil {
+			continue
+		}
+		if tableDetail.action == Retain && tableDetail.tableOld.GetRelation() == nil {
+			tableDetail.action = Add
+		}
 		switch tableDetail.action {
 		case "ADD":
 			v.writeCreateSQLForATable(tableDetail.name, tableDetail.table.GetRelation(), visitedAttributes)
